@@ -129,6 +129,49 @@ func main() {
 		for _, u := range a.Undecided {
 			fmt.Println("UNDECIDED:", u)
 		}
+	case "layout":
+		p, err := load.Load(load.Options{})
+		if err != nil {
+			fmt.Println("load error:", err)
+			os.Exit(2)
+		}
+		pkg, typ, name := os.Args[2], os.Args[3], os.Args[4]
+		fn := p.Func(pkg, name)
+		if typ != "-" {
+			fn = p.Method(pkg, typ, name)
+		}
+		a := absint.New(p)
+		a.PureHelpers = map[string]bool{load.ModPrefix + "protocol/utils.BCD2Time": true, load.ModPrefix + "protocol/utils.Bcd2Dec": true}
+		st := absint.NewState()
+		var args []absint.Term
+		for _, prm := range fn.Params {
+			args = append(args, a.Unknown(prm.Type(), prm.Name(), st))
+		}
+		a.TrackObj(st, args[0], fn.Params[0].Type())
+		objs := map[int]string{args[0].(*absint.Ptr).Obj.ID: ""}
+		for _, f := range os.Args[5:] {
+			if fp := a.TrackField(st, args[0], fn.Params[0].Type(), f); fp != nil {
+				objs[fp.Obj.ID] = f + "."
+			}
+		}
+		_, rets := a.RunEntry(fn, st, args, nil)
+		for i, r := range absint.Rets(rets) {
+			fmt.Printf("--- return %d: %s\n", i, a.Render(r.Val))
+			var locs []absint.Loc
+			for l := range a.Stored {
+				if _, ok := objs[l.Obj]; ok {
+					locs = append(locs, l)
+				}
+			}
+			sort.Slice(locs, func(i, j int) bool { return objs[locs[i].Obj]+locs[i].Path < objs[locs[j].Obj]+locs[j].Path })
+			for _, l := range locs {
+				if v, ok := absint.HeapValue(r.St, l); ok {
+					fmt.Printf("   %-40s %s\n", objs[l.Obj]+absint.PrettyLoc(l), a.Render(v))
+				} else {
+					fmt.Printf("   %-40s <unwritten>\n", objs[l.Obj]+absint.PrettyLoc(l))
+				}
+			}
+		}
 	case "e1all":
 		p, err := load.Load(load.Options{})
 		if err != nil {
